@@ -63,6 +63,7 @@ HOSTILE = [
     b'{"type":"match","data":{"path":{"text":"f.rs"},"lines":{"text":"ab\\n"},"line_number":1,"absolute_offset":0,"submatches":[{"match":{"text":"a"},"start":1,"end":0}]}}',
     b'{"type":"context","data":{"path":{"text":"f.rs"},"lines":{"text":"\\tq\\n"},"line_number":2,"absolute_offset":0,"submatches":[]}}',
     b'{"type":"begin","data":{"path":{"text":"f.rs"}}}', b'{"type":"end","data":{}}', b"{", b'{"type":"match"}',
+    b'{"type":"match","data":{"path":{"text":"f.rs"},"lines":{"text":"\\ta\\tb\\n"},"line_number":4,"absolute_offset":0,"submatches":[]}}',
     b'{"type":"match","data":{"path":{"bytes":"Zg=="},"lines":{"bytes":"/w=="},"line_number":null,"absolute_offset":0,"submatches":[]}}',
 ]
 
@@ -309,6 +310,325 @@ def run_deco(task):
     return {"n": n, "violations": list(viols.values())}
 
 
+# ---------------------------------------------------------------------------------------------
+# Layer 3 (E2, option values): every listed option x every hostile value of its kind x presentation
+# modes, rendered over a corpus that reaches every element the option can influence. "Accepted" = the
+# option set did not make delta exit with a usage/error message (status 2 with an ordinary message).
+
+FMT_VALUES = ["", " ", "{", "}", "{}", "{nm", "nm}", "{nm:}", "{nm:^0}", "{nm:^1}", "{nm:>99999999999999999999}",
+              "{nm:_<3}", "{nm:<3.2}", "{xx}", "{nm:^4}{np:^4}{nm}", "\u6f22{nm:^3}\u6f22", "%", "%Y-%m-%d %z", "%Q%%%",
+              "{timestamp:<15} {author:<15.14} {commit:<8}", "{commit}", "{author:>0}", "{timestamp:^1}",
+              "{n:^4}", "{n}", "{path}", "{host}{path}{line}", "file://{path}#{line}", "{commit:>400}",
+              "{nm:^400}", "{np:\u6f22^5}", "{nm:~>3}", "{{nm}}", "{nm:^-1}", "\x1b[31m{nm}"]
+SYM_VALUES = ["", " ", "ab", "\u6f22", "\t", "\x1b[31m", "e\u0301", "\u200b", "\n", "x" * 100, "\u6f22" * 50]
+RE_VALUES = ["", "(", ".*", "^", "$", "\\b", "x*", "(?:)", "a|", "[", "\\w+", ".", "\\s*", "(a)(b)", "^$", "\u6f22?"]
+FT_VALUES = ["", "s", "s/a/b/", "s/(/x/", "s/a/$9/", "s/.*//", "s///", "s/a/b/g;s/b/a/", "s,a,b,", "s/a/b",
+             "s/x/\u6f22\u6f22/", "s/^/" + "p" * 300 + "/", "s/(.)/$1$1$1$1/g", "y/a/b/"]
+NUM_VALUES = {
+    "width": ["0", "1", "2", "3", "4", "5", "variable", "-1", "99999", "18446744073709551615", "18446744073709551616", ""],
+    "tabs": ["0", "1", "2", "1000", "18446744073709551615", "-1"],
+    "max-line-length": ["0", "1", "2", "5", "18446744073709551615"],
+    "line-buffer-size": ["0", "1", "2", "18446744073709551615"],
+    "wrap-max-lines": ["0", "1", "2", "unlimited", "\u221e", "18446744073709551615", "-1"],
+    "wrap-right-percent": ["0", "100", "-1", "1e9", "nan", "inf", "0.0001", "99.9999", "101", ""],
+    "max-line-distance": ["0", "1", "-1", "2", "nan", "inf", "-inf", "1e-300", "0.9999999"],
+    "diff-stat-align-width": ["0", "1", "2", "1000", "18446744073709551615"],
+    "max-syntax-highlighting-length": ["0", "1", "2", "18446744073709551615"],
+}
+ENUM_VALUES = {
+    "line-fill-method": ["ansi", "spaces", "", "x"],
+    "inspect-raw-lines": ["true", "false", "", "x"],
+    "true-color": ["always", "never", "auto", ""],
+    "24-bit-color": ["always", "never", "auto"],
+    "grep-output-type": ["ripgrep", "classic", ""],
+    "default-language": ["", "rs", "nosuch", "\u6f22", "Rust", "txt", "."],
+    "syntax-theme": ["none", "", "nosuch", "Monokai Extended", "GitHub", "ansi", "base16"],
+    "map-styles": ["", "=>", "a=>b", "bold purple => syntax magenta, x", ",,", "red=>", "=>red", "bold red => omit",
+                   "31 => raw", "red => red, red => blue"],
+    "blame-palette": ["", " ", "red", "#", "#000000", "red red", "1 2 3 4 5 6 7 8 9 10 11 12 13 14 15 16 17"],
+    "features": ["", " ", "nosuch", "navigate navigate", "side-by-side line-numbers decorations", "raw color-only",
+                 "diff-so-fancy diff-highlight"],
+}
+STYLE_VALUES = ["", " ", "omit", "raw", "syntax", "normal", "normal normal normal", "red red", "bold bold", "#fff",
+                "#ffffff", "#gggggg", "256", "255", "-1", "auto", "ul ol box", "reverse syntax", "\"", "none",
+                "syntax syntax", "raw bold", "omit box", "red blue green", "bold italic ul ol blink hidden strike dim reverse 1 2",
+                "box", "ul", "ol", "box ul ol red", "underline", "overline", "purple bright-purple", "'red'", "red,blue",
+                "raw box", "file line-number", "omit-code-fragment", "line-number", "file", "syntax file line-number"]
+FMT_OPTS = ["line-numbers-left-format", "line-numbers-right-format", "blame-format", "blame-separator-format",
+            "blame-timestamp-format", "blame-timestamp-output-format", "hyperlinks-file-link-format",
+            "hyperlinks-commit-link-format"]
+SYM_OPTS = ["wrap-left-symbol", "wrap-right-symbol", "wrap-right-prefix-symbol", "right-arrow", "hunk-label",
+            "grep-separator-symbol", "merge-conflict-begin-symbol", "merge-conflict-end-symbol",
+            "file-added-label", "file-copied-label", "file-modified-label", "file-removed-label",
+            "file-renamed-label"]
+RE_OPTS = ["commit-regex", "navigate-regex", "word-diff-regex"]
+STYLE_OPTS_ALL = [
+    "minus-style", "plus-style", "zero-style", "minus-emph-style", "plus-emph-style", "minus-non-emph-style",
+    "plus-non-emph-style", "minus-empty-line-marker-style", "plus-empty-line-marker-style",
+    "whitespace-error-style", "commit-style", "commit-decoration-style", "file-style", "file-decoration-style",
+    "hunk-header-style", "hunk-header-decoration-style", "hunk-header-file-style", "hunk-header-line-number-style",
+    "line-numbers-minus-style", "line-numbers-plus-style", "line-numbers-zero-style", "line-numbers-left-style",
+    "line-numbers-right-style", "inline-hint-style", "blame-code-style", "blame-separator-style",
+    "grep-context-line-style", "grep-file-style", "grep-header-decoration-style", "grep-header-file-style",
+    "grep-line-number-style", "grep-match-line-style", "grep-match-word-style",
+    "merge-conflict-ours-diff-header-style", "merge-conflict-ours-diff-header-decoration-style",
+    "merge-conflict-theirs-diff-header-style", "merge-conflict-theirs-diff-header-decoration-style"]
+
+RG1 = b'{"type":"match","data":{"path":{"text":"src/f.rs"},"lines":{"text":"\\tlet a = \xe6\xbc\xa2;\\n"},"line_number":3,"absolute_offset":0,"submatches":[{"match":{"text":"a"},"start":5,"end":6}]}}'
+OPT_CORPUS = [
+    ("diff", None,
+     b"commit " + H40 + b" (HEAD -> main)\nAuthor: A <a@b>\nDate:   Thu Jan 1 00:00:00 2020 +0000\n\n    subject\n\n"
+     b" src/f.rs | 2 +-\n 1 file changed, 1 insertion(+), 1 deletion(-)\n\n"
+     b"diff --git a/src/f.rs b/src/f.rs\nindex 1111111..2222222 100644\n--- a/src/f.rs\n+++ b/src/f.rs\n"
+     b"@@ -9,5 +9,6 @@ fn main() {\n     let a = 1;\n-    let b = \"" + b"x" * 70 + b"\";\n+    let b = \"" + b"x" * 30 + b"\xe6\xbc\xa2" * 25 +
+     b"\";\n+\n \tprintln!(\"{}\", a);\n-\n+\tc  \n }\n\\ No newline at end of file\n"
+     b"diff --git a/old name.txt b/new name.txt\nsimilarity index 90%\nrename from old name.txt\nrename to new name.txt\n"
+     b"index 1111111..2222222 100644\n--- a/old name.txt\n+++ b/new name.txt\n@@ -1 +1 @@\n-a\n+b\n"
+     b"diff --git a/m.sh b/m.sh\nold mode 100644\nnew mode 100755\n"
+     b"diff --git a/n.bin b/n.bin\nnew file mode 100644\nindex 0000000..2222222\nBinary files /dev/null and b/n.bin differ\n"
+     b"diff --git a/c.txt b/d.txt\nsimilarity index 100%\ncopy from c.txt\ncopy to d.txt\n"
+     b"diff --git a/gone.rs b/gone.rs\ndeleted file mode 100644\nindex 1111111..0000000\n--- a/gone.rs\n+++ /dev/null\n@@ -1,2 +0,0 @@\n-fn x() {}\n-\n"
+     b"Submodule sub 1111111..2222222:\n  > msg\n"),
+    ("coloured", None,
+     b"\x1b[1mdiff --git a/f.py b/f.py\x1b[m\n\x1b[1m--- a/f.py\x1b[m\n\x1b[1m+++ b/f.py\x1b[m\n\x1b[36m@@ -1,3 +1,3 @@\x1b[m \x1b[mdef f():\x1b[m\n"
+     b" x\x1b[m\n\x1b[31m-old line here\x1b[m\n\x1b[32m+\x1b[m\x1b[32mnew line here\x1b[m\x1b[41m  \x1b[m\n\x1b[1;35m-moved away\x1b[m\n\x1b[1;36m+\x1b[m\x1b[1;36mmoved here\x1b[m\n"),
+    ("combined", None,
+     b"diff --cc f.txt\nindex 1111111,2222222..0000000\n--- a/f.txt\n+++ b/f.txt\n@@@ -1,5 -1,5 +1,9 @@@ ctx\n  a\n- b\n -c\n++d\n"
+     b"++<<<<<<< HEAD\n +ours \xe6\xbc\xa2\n++||||||| base\n++anc\n++=======\n+ theirs\n++>>>>>>> branch\n  e\n++<<<<<<< HEAD\n +unclosed\n"),
+    ("diffu", None,
+     b"diff -ru a/x.c b/x.c\n--- a/x.c\t2020-01-01 00:00:00.000000000 +0000\n+++ b/x.c\t2020-01-02 00:00:00.000000000 +0000\n"
+     b"@@ -1,3 +1,3 @@\n a\n--- b\n+++ c\n d\nOnly in a: y\n"),
+    ("grep", ["git", "grep", "-n", "a"],
+     b"src/f.rs:3:\tlet a = 1;\nsrc/f.rs-4-\tother\n--\nsrc/f.rs:19:  a\xe6\xbc\xa2\nsrc/g-1.rs=7=fn q() {\nsrc/g-1.rs:8:    a\nREADME:1:a\n"
+     b"\x1b[35msrc/h.rs\x1b[m\x1b[36m:\x1b[m\x1b[32m5\x1b[m\x1b[36m:\x1b[mxx \x1b[1;31ma\x1b[m yy\n"),
+    ("rgjson", ["rg", "--json", "a"],
+     b'{"type":"begin","data":{"path":{"text":"src/f.rs"}}}\n' + RG1 + b"\n" +
+     b'{"type":"context","data":{"path":{"text":"src/f.rs"},"lines":{"text":"next\\n"},"line_number":4,"absolute_offset":9,"submatches":[]}}\n'
+     b'{"type":"end","data":{"path":{"text":"src/f.rs"}}}\n'),
+    ("blame", ["git", "blame", "f.rs"],
+     H40[:8] + b" (A U Thor       2020-01-01 00:00:00 +0000  1) fn main() {\n" +
+     H40[:8] + b" (A U Thor       2020-01-01 00:00:00 +0000  2)     \tlet a = 1;\n"
+     b"^1234567 old.rs (\xe6\xbc\xa2\xe6\xbc\xa2 2019-06-01 12:00:00 -0730  3) }\n" +
+     H40[8:16] + b" (B               2021-12-31 23:59:59 +1400 10) \n"),
+    ("show", ["git", "show", "HEAD:f.rs"], b"fn main() {\n\tlet a = \"\xe6\xbc\xa2\";\n}\n"),
+]
+OPT_MODES = [("unified", {}), ("sbs", {"side-by-side": True}), ("ln", {"line-numbers": True}),
+             ("sbs,w=30", {"side-by-side": True, "width": "30"}),
+             ("navigate,hyperlinks", {"navigate": True, "hyperlinks": True}),
+             ("color-only", {"color-only": True}),
+             ("syntax", {"syntax-theme": "Monokai Extended"}),
+             ("w=12,ln", {"width": "12", "line-numbers": True})]
+
+
+def option_values(tier):
+    """[(option, value)] - the single-option deviations of layer 3"""
+    def dec(v):
+        return v
+    out = []
+    for o in FMT_OPTS:
+        out += [(o, dec(v)) for v in FMT_VALUES]
+    for o in SYM_OPTS:
+        out += [(o, dec(v)) for v in SYM_VALUES]
+    for o in RE_OPTS:
+        out += [(o, dec(v)) for v in RE_VALUES]
+    out += [("file-transformation", dec(v)) for v in FT_VALUES]
+    for o, vs in list(NUM_VALUES.items()) + list(ENUM_VALUES.items()):
+        out += [(o, dec(v)) for v in vs]
+    for o in STYLE_OPTS_ALL:
+        out += [(o, dec(v)) for v in STYLE_VALUES]
+    return out
+
+
+_SINGLE = {}
+
+
+def single_crashes(drv, mov, pair, inp):
+    """{(kind, site)} of the crashes each value of the pair produces on its own (same mode, same input)"""
+    out = set()
+    for opt, val in pair:
+        key = (tuple(sorted(mov.items())), opt, val, inp)
+        if key not in _SINGLE:
+            o = dict(BASE)
+            o.update(mov)
+            o[opt] = val
+            got = set()
+            try:
+                cid = drv.mkconfig(build_args(o))
+                if inp is not None:
+                    r = explore.render_robust(drv, cid, [inp], timeout=20.0)[0]
+                    if isinstance(r, Exception) or r.panic:
+                        msg = str(r) if isinstance(r, Exception) else r.panic
+                        kind = "hang" if isinstance(r, Hang) else ("died" if isinstance(r, DriverDied) else "panic")
+                        got.add((kind, explore.crash_site(msg)))
+                drv.drop(cid)
+            except explore.Rejected as e:
+                if "PANIC" in str(e) or "report the bug" in str(e):
+                    got.add(("config", explore.crash_site(str(e))))
+            except (Hang, DriverDied):
+                got.add(("config", "died"))
+            _SINGLE[key] = got
+        out |= _SINGLE[key]
+    return out
+
+
+def run_optvals(task):
+    """one caller's share: [(option, value)] x modes, rendered over that caller's corpus"""
+    caller, inputs, names, pairs, modes, deadline = task
+    drv = explore.get_driver(caller=caller)
+    drv.timeout = 30.0
+    viols = {}
+    n = 0
+    nconf = 0
+    rejected = 0
+    capped = False
+    outs = set()
+
+    def note(klass, msg, hist, args, label):
+        if klass not in viols:
+            v = Violation(klass, msg, hist, None, None, msg)
+            v.args = args
+            v.config_label = label
+            v.caller = caller
+            viols[klass] = v
+
+    for pair in pairs:
+        if time.time() > deadline:
+            capped = True
+            break
+        for mlabel, mov in modes:
+            o = dict(BASE)
+            o.update(mov)
+            label = mlabel
+            for opt, val in pair:
+                if opt == "features":
+                    o["features"] = val
+                else:
+                    o[opt] = val
+                label += ",%s=%r" % (opt, val)
+            args = build_args(o)
+            try:
+                cid = drv.mkconfig(args)
+            except explore.Rejected as e:
+                msg = str(e)
+                if "PANIC" in msg or "report the bug" in msg:
+                    if len(pair) > 1 and ("config", explore.crash_site(msg)) in single_crashes(drv, mov, pair, None):
+                        continue
+                    note("crash:config:" + explore.crash_site(msg) + ":" + "+".join(o for o, _ in pair), msg, [], args, label)
+                else:
+                    rejected += 1
+                continue
+            except (Hang, DriverDied) as e:
+                note("crash:config:%s:%s" % (type(e).__name__, pair[0][0]), str(e), [], args, label)
+                continue
+            nconf += 1
+            w = 80
+            try:
+                w = int(o.get("width") or "80")
+            except ValueError:
+                pass
+            res = explore.render_robust(drv, cid, inputs, timeout=20.0)
+            drv.drop(cid)
+            late_reject = False
+            for name, inp, r in zip(names, inputs, res):
+                n += 1
+                if isinstance(r, DriverDied) and r.status == 2 and b"report the bug" not in (r.stderr or b""):
+                    # delta validates some option values only when they are first used and then exits with an
+                    # ordinary error message (status 2): a late rejection, the option set is not accepted
+                    late_reject = True
+                    continue
+                if isinstance(r, Exception) or r.panic:
+                    msg = str(r) if isinstance(r, Exception) else r.panic
+                    kind = "hang" if isinstance(r, Hang) else ("died" if isinstance(r, DriverDied) else "panic")
+                    if len(pair) > 1 and (kind, explore.crash_site(msg)) in single_crashes(drv, mov, pair, inp):
+                        continue    # one of the two values alone does it: reported by the single-value pass
+                    note("crash:%s:%s:%s" % (kind, explore.crash_site(msg), "+".join(o for o, _ in pair)), msg,
+                         inp.split(b"\n")[:-1], args, label + "/" + name)
+                else:
+                    outs.add(explore.h64(r.out))
+                    bound = 2 * (len(inp) + 64) * (min(w, 100000) + 256) + 65536
+                    if "tabs" in o:
+                        bound += len(inp) * min(int(o["tabs"]) if o["tabs"].isdigit() else 8, 10**7)
+                    if len(r.out) > bound:
+                        note("runaway-output:" + pair[0][0], "output of %d bytes for %d input bytes" % (len(r.out), len(inp)),
+                             inp.split(b"\n")[:-1], args, label + "/" + name)
+            if late_reject:
+                rejected += 1
+                nconf -= 1
+    return {"n": n, "configs": nconf, "rejected": rejected, "violations": list(viols.values()),
+            "capped": capped, "outs": outs}
+
+
+def plan_optvals(tier, deadline):
+    vals = option_values(tier)
+    if tier == "quick":
+        modes = OPT_MODES[:4]
+        pairs = [(v,) for v in vals]
+    else:
+        modes = OPT_MODES
+        pairs = [(v,) for v in vals]
+        # pairs of deviations from different kinds (a format or symbol with a number)
+        nums = [(o, v) for o, vs in NUM_VALUES.items() for v in vs if o in ("width", "tabs", "max-line-length", "wrap-max-lines")]
+        others = [v for v in vals if v[0] in FMT_OPTS + SYM_OPTS]
+        pairs += [(a, b) for a in others for b in nums]
+    tasks = []
+    by_caller = {}
+    for name, caller, data in OPT_CORPUS:
+        by_caller.setdefault(tuple(caller) if caller else None, []).append((name, data))
+    nshards = 16
+    for caller, items in by_caller.items():
+        names = [n for n, _ in items]
+        inputs = [d for _, d in items]
+        for i in range(nshards):
+            tasks.append((list(caller) if caller else None, inputs, names, pairs[i::nshards], modes, deadline))
+    return tasks, len(vals), len(pairs), len(modes)
+
+
+def run_wrap(task):
+    """E2: side-by-side wrapping at exact-fit points: every width x every text length 1..3 panels x trailing
+    blanks/tab x line kind (the two wrapping passes - syntax and diff sections - must agree on every one)"""
+    widths, wrap_max, deadline = task
+    drv = explore.get_driver()
+    viols = {}
+    n = 0
+    head = b"diff --git a/f.txt b/f.txt\n--- a/f.txt\n+++ b/f.txt\n@@ -1,2 +1,2 @@\n"
+    for w in widths:
+        for ln in (False, True):
+            o = dict(BASE)
+            o.update({"width": str(w), "side-by-side": True, "wrap-max-lines": wrap_max})
+            if ln:
+                o["line-numbers-left-format"] = ""
+                o["line-numbers-right-format"] = "|"
+            args = build_args(o)
+            try:
+                cid = drv.mkconfig(args)
+            except explore.Rejected:
+                continue
+            inputs = []
+            for k in range(1, 3 * (w // 2) + 3):
+                for trail in (b"", b" ", b"  ", b"\t", b" \xe6\xbc\xa2"):
+                    t = b"x" * k + trail
+                    inputs.append(head + b"-" + t + b"\n+" + t + b"y\n")
+                    inputs.append(head + b" " + t + b"\n+q\n")
+                    inputs.append(head + b"-q\n+" + b"x" * (k // 2) + b" " + b"x" * (k - k // 2) + trail + b"\n")
+            for i in range(0, len(inputs), 256):
+                if time.time() > deadline:
+                    break
+                chunk = inputs[i:i + 256]
+                res = explore.render_robust(drv, cid, chunk, timeout=20.0)
+                for inp, r in zip(chunk, res):
+                    n += 1
+                    if isinstance(r, Exception) or r.panic:
+                        msg = str(r) if isinstance(r, Exception) else r.panic
+                        klass = "crash:%s:%s" % ("hang" if isinstance(r, Hang) else "panic", explore.crash_site(msg))
+                        if klass not in viols:
+                            v = Violation(klass, msg, inp.split(b"\n")[:-1], None, None, msg)
+                            v.args = args
+                            v.config_label = "wrap-sweep,width=%d,wrap-max-lines=%s" % (w, wrap_max)
+                            viols[klass] = v
+            drv.drop(cid)
+    return {"n": n, "violations": list(viols.values())}
+
+
 def plan(tier):
     d1 = deviations(DIMS, 1)
     hostile = []
@@ -354,6 +674,9 @@ ASSUMPTIONS = [
     "hostile alphabet of %d lines (list in props/c03.py) and 18 byte classes; arbitrary long binary "
     "input and enormous inputs (memory growth with input size) are not covered" % len(HOSTILE),
     "option values are the listed levels; interactions of three or more option deviations are not covered",
+    "option-value layer: listed hostile values per option kind (formats, symbols, regexes, numbers, enums, styles), one "
+    "option at a time (thorough: also format/symbol x number pairs) x presentation modes over an 8-input corpus; an "
+    "option set is 'accepted' unless delta exits with an ordinary error message at start-up",
     "hang = no answer within 30 s for a batch; runaway output = more than 2 x (input bytes + 64) x (width + 256) + 64 KiB",
     "built with overflow checks on and debug assertions off",
 ]
@@ -369,7 +692,11 @@ def main(tier):
     deadline = t0 + cap
     wmax = 64 if tier == "quick" else 130
     res_d = explore.pmap(run_deco, [(list(range(i, wmax + 1, 16)), deadline) for i in range(1, 17)])
+    wr = list(range(14, 48)) if tier == "quick" else list(range(8, 100))
+    res_w = explore.pmap(run_wrap, [(wr[i::8], wm, deadline) for i in range(8) for wm in ("2", "unlimited")])
     res_b = explore.pmap(run_bytes, [t + (deadline,) for t in byte_tasks])
+    otasks, n_optvals, n_optpairs, n_optmodes = plan_optvals(tier, deadline)
+    res_o = explore.pmap(run_optvals, otasks)
     sharded = []
     for t in hostile:
         if t[4] >= 3:
@@ -404,6 +731,9 @@ def main(tier):
     ndeco = sum(r["n"] for r in res_d)
     for r in res_d:
         viols.extend(r["violations"])
+    nwrap = sum(r["n"] for r in res_w)
+    for r in res_w:
+        viols.extend(r["violations"])
     nbytes = 0
     bouts = set()
     for r in res_b:
@@ -412,6 +742,17 @@ def main(tier):
         if r["capped"]:
             caps.append("bytes %s/%s: %s" % (r["label"], r["state"], r["capped"]))
         viols.extend(r["violations"])
+    nopt = sum(r["n"] for r in res_o)
+    nopt_conf = sum(r["configs"] for r in res_o)
+    nopt_rej = sum(r["rejected"] for r in res_o)
+    oouts = set()
+    for r in res_o:
+        oouts |= r["outs"]
+        viols.extend(r["violations"])
+    if any(r["capped"] for r in res_o):
+        caps.append("option-value layer: time cap")
+    if not nopt_conf:
+        raise MachineryError("option-value layer: no configuration was accepted")
     best = {}
     for v in viols:
         cur = best.get(v.klass)
@@ -449,7 +790,12 @@ def main(tier):
                                      "driver does not represent the binary" % v.klass)
     cov = {
         "states": states, "transitions": transitions,
-        "traces_validated_against_impl": renders + nbytes + ncli + ndeco,
+        "traces_validated_against_impl": renders + nbytes + ncli + ndeco + nopt + nwrap,
+        "wrap_exact_fit_sweep_renders": nwrap,
+        "option_value_layer": {"option_values": n_optvals, "deviation_tuples": n_optpairs, "modes": n_optmodes,
+                               "corpus_inputs": len(OPT_CORPUS), "configurations_accepted": nopt_conf,
+                               "configurations_rejected_by_delta": nopt_rej, "renders": nopt,
+                               "distinct_outputs": len(oouts)},
         "samples": samples + [{"byte_layer_example": "ESC [ 0 ; m as one line in 5 states"}],
         "decoration_width_sweep_renders": ndeco, "byte_strings_executed": nbytes, "byte_string_max_len": L, "byte_classes": len(BYTE_CLASSES),
         "hostile_alphabet": len(HOSTILE), "max_depth": maxd, "distinct_snapshots": len(snaps),
